@@ -7,6 +7,7 @@ toolchain go1.23.5
 require (
 	github.com/Ptt-official-app/go-pttbbs v0.0.0
 	github.com/sirupsen/logrus v1.9.3
+	github.com/spf13/viper v1.18.2
 	golang.org/x/tools v0.29.0
 )
 
@@ -21,7 +22,6 @@ require (
 	github.com/spf13/afero v1.11.0 // indirect
 	github.com/spf13/cast v1.6.0 // indirect
 	github.com/spf13/pflag v1.0.5 // indirect
-	github.com/spf13/viper v1.18.2 // indirect
 	github.com/subosito/gotenv v1.6.0 // indirect
 	golang.org/x/mod v0.22.0 // indirect
 	golang.org/x/sync v0.10.0 // indirect
